@@ -229,3 +229,74 @@ def explain_bom(n0, n1, cop, l0, l1, person):
 
 
 EXPLAIN = {"_bom": explain_bom}
+
+
+# ------------------------------------------------------------------ the chunked SHA-1 read
+import hashlib  # noqa: E402
+import io  # noqa: E402
+
+import reuse._util as ut  # noqa: E402
+
+SIZES = [0, 1, 63, 64, 8191, 8192, 8193, 12345, 16383, 16384, 16385, 24577]
+
+
+class BinPath:
+    data = b""
+
+    def __init__(self, *a):
+        pass
+
+    def open(self, mode="rb"):
+        return io.BytesIO(BinPath.data)
+
+    def stat(self, follow_symlinks=True):
+        class S:
+            st_size = len(BinPath.data)
+
+        return S()
+
+    def read_bytes(self):
+        return BinPath.data
+
+    def exists(self):
+        return True
+
+    def is_file(self):
+        return True
+
+
+def sha_story(k, pat):
+    n = SIZES[_pick(k, len(SIZES))]
+    seedbyte = [0, 65, 255][_pick(pat, 3)]
+    BinPath.data = bytes((seedbyte + i * 7) % 256 for i in range(n))
+    saved = ut.Path
+    ut.Path = BinPath
+    try:
+        got = ut._checksum("/proj/f.bin")
+    finally:
+        ut.Path = saved
+    want = hashlib.sha1(BinPath.data).hexdigest()
+    return got == want, {"size": n, "got": got, "sha1": want}
+
+
+def _sha(k: int, pat: int) -> bool:
+    """
+    pre: 0 <= k < len(SIZES) and 0 <= pat < 3
+    post: _
+    """
+    return sha_story(k, pat)[0]
+
+
+def _sha_reach(k: int, pat: int) -> bool:
+    """
+    pre: 0 <= k < len(SIZES) and 0 <= pat < 3
+    post: False
+    """
+    return sha_story(k, pat)[0]
+
+
+def explain_sha(k, pat):
+    return sha_story(k, pat)[1]
+
+
+EXPLAIN["_sha"] = explain_sha
